@@ -41,6 +41,10 @@ struct Opt_link_short_float : Simplex_tree_options_default {
   typedef float Filtration_value;
   static const bool link_nodes_by_label = true;
 };
+// integral filtration values: intersect_lifetimes / unify_lifetimes have a separate branch for types without quiet NaN
+struct Opt_int : Simplex_tree_options_default {
+  typedef int Filtration_value;
+};
 struct Opt_nokey : Simplex_tree_options_default {
   static const bool store_key = false;
   typedef std::uint64_t Simplex_key;
@@ -210,6 +214,7 @@ int main() {
         else if (os == "stable") run.reset(new RunnerT<Opt_stable>());
         else if (os == "link") run.reset(new RunnerT<Opt_link_short_float>());
         else if (os == "nokey") run.reset(new RunnerT<Opt_nokey>());
+        else if (os == "intv") run.reset(new RunnerT<Opt_int>());
         else { run.reset(); }
         ans = run ? "ok" : "nosuchoptions";
       } else if (!run) {
